@@ -591,16 +591,12 @@ class Repo(object):
         if isinstance(node, ast.BinOp):
             l, r = ev(node.left), ev(node.right)
             try:
-                if isinstance(node.op, ast.Add):
-                    return l + r
-                if isinstance(node.op, ast.Mod):
-                    return l % r
-                if isinstance(node.op, ast.Mult):
-                    return l * r
-                if isinstance(node.op, ast.BitOr):
-                    return l | r
-                if isinstance(node.op, ast.Sub):
-                    return l - r
+                import operator as _opr
+                _OPS = {ast.Add: _opr.add, ast.Mod: _opr.mod, ast.Sub: _opr.sub, ast.Mult: _opr.mul, ast.BitOr: _opr.or_, ast.BitAnd: _opr.and_, ast.BitXor: _opr.xor,
+                        ast.LShift: _opr.lshift, ast.RShift: _opr.rshift, ast.FloorDiv: _opr.floordiv, ast.Div: _opr.truediv, ast.Pow: _opr.pow}
+                fn_ = _OPS.get(type(node.op))
+                if fn_ is not None:
+                    return fn_(l, r)
             except Exception as e:
                 raise Unknown("binop failed: %s" % e)
             raise Unknown("binop")
